@@ -10,6 +10,8 @@
     getfile <dir> <sum>       -> <hex>
     n2p <s>                   -> ok <hex> | err                   (blob.nameToPath)
     mfpath <dir> <n> <link>* <name> -> ok <hex> | err             (DiskCache.manifestPath)
+    hist <n> <link>* <k> {R|L|U|W|X <arg>}*  -> per cache call "<relpath|!><+|->" joined by ",", then disk=<listing>
+                                 (history on one DiskCache; W/X = foreign create/remove of manifests/a/b/c/d)
     snd <s>                   -> <name> <digest>                  (blob.splitNameDigest)
     resolve <dir> <n> <link>* <s> -> digest <sum> | manifest <hex> | invalid   (addressing part of DiskCache.Resolve)
     fold <asciiA> <l>         -> 0|1                              (strings.EqualFold, ASCII left operand)
@@ -31,6 +33,17 @@ def showName (n : Name) : String :=
 def showOpt : Option Bytes → String
   | some p => s!"ok {hexOrDash p}"
   | none => "err"
+
+def pHOp : TP HOp := do
+  let c ← tok
+  let a ← hex
+  match c with
+  | "R" => pure (.resolve a)
+  | "L" => pure (.link a)
+  | "U" => pure (.unlink a)
+  | "W" => pure (.fwrite a)
+  | "X" => pure (.fremove a)
+  | _ => failure
 
 def handle (toks : List String) : Option String :=
   match toks with
@@ -90,6 +103,14 @@ def handle (toks : List String) : Option String :=
       let links ← listOf hex
       let s ← hex
       pure (showOpt (manifestPath dir links s))) rest
+  | "hist" :: rest =>
+    runTP (do
+      let init ← listOf hex
+      let ops ← listOf pHOp
+      let (disk, outs) := runH (init.foldl (fun d l => insertLink l d) []) ops
+      let shown := outs.filterMap fun o => o.map fun r =>
+        (match r.path with | some p => hexOrDash p | none => "!") ++ (if r.existed then "+" else "-")
+      pure s!"{joinWith "," shown} disk={joinWith "," (disk.map hexOrDash)}") rest
   | "snd" :: rest =>
     runTP (do
       let s ← hex
